@@ -6,7 +6,7 @@ import ast
 from ..cfg import ENTRY, EXIT, RAISE, reaching_defs
 from ..common import calls_named, dotted, kw, loc, norm
 from ..model import AnalysisError, External, own_nodes
-from .util import anchor_func, assigned_name, build_cfg, facts, switch_assumptions
+from .util import specialise_defaults, anchor_func, assigned_name, build_cfg, facts, switch_assumptions
 from . import c10
 
 TB = "mygrad.tensor_base"
@@ -236,7 +236,7 @@ def _is_param(e: ast.AST, p: str) -> bool:
 
 def r17_4(run):
     fx = facts(run)
-    cp = anchor_func(run, f"{TB}.Tensor.copy")
+    cp = specialise_defaults(anchor_func(run, f"{TB}.Tensor.copy"), keep=("constant",))
     rets = [r for r in own_nodes(cp.node) if isinstance(r, ast.Return)]
     builds = [c for c in own_nodes(cp.node) if isinstance(c, ast.Call) and dotted(c.func) in ("Tensor", "type(self)")]
     ok = len(builds) == 1 and builds[0].args and norm(builds[0].args[0]) in ("np.copy(self.data)", "self.data.copy()") \
